@@ -76,9 +76,24 @@ Definition write_table (es : list entry) : table :=
   mkT f (blen f) (blen (ser_entries es)) (first_key es) (last_key es) (first_seq es) (max_seq es)
       (Some (bloom_of es, index_of es)).
 
-(* Document() then NewTableFromDocument: same file and numbers, metadata not loaded *)
-Definition reopen (t : table) : table :=
-  mkT (t_file t) (t_size t) (t_esize t) (t_start t) (t_end t) (t_sseq t) (t_eseq t) None.
+(* Table.Document(): the descriptor stored in a checkpoint. The file is identified by its URI; here by its bytes. *)
+Record tdoc := mkDoc { doc_start : bytes; doc_end : bytes; doc_size : N; doc_esize : N; doc_sseq : N; doc_eseq : N }.
+Definition document (t : table) : tdoc :=
+  mkDoc (t_start t) (t_end t) (t_size t) (t_esize t) (t_sseq t) (t_eseq t).
+
+(* The checkpoint file stores descriptors with encoding/json. StartKey/EndKey are []byte (9c547e8, D30), which
+   encoding/json writes as base64 and reads back byte for byte; the integers are decimal. The encoding is therefore
+   modelled as the identity on descriptors (TRUSTED: not verified here; the correspondence check passes every
+   descriptor through json.Marshal/json.Unmarshal and compares the re-opened ranges).  Before 9c547e8 the keys were
+   Go strings and every byte sequence that is not valid UTF-8 came back as U+FFFD. *)
+Definition json_doc (d : tdoc) : tdoc := d.
+
+(* NewTableFromDocument: same file and numbers, metadata not loaded *)
+Definition open_document (file : bytes) (d : tdoc) : table :=
+  mkT file (doc_size d) (doc_esize d) (doc_start d) (doc_end d) (doc_sseq d) (doc_eseq d) None.
+
+(* re-opening = Document(), JSON round trip, NewTableFromDocument *)
+Definition reopen (t : table) : table := open_document (t_file t) (json_doc (document t)).
 
 (* loadFooter: last 12 bytes hold the meta offset; bloom then index are decoded from there. None = panic *)
 Definition load_footer (t : table) : option (bloom * list N) :=
